@@ -246,7 +246,12 @@ func (t *TupleType) IsAssignable(o px.Type, g px.Guard) bool {
 			top := len(o.types)
 			if top == 0 {
 				// other accepts elements of any type
-				return o.givenOrActualSize.max == 0
+				for _, mt := range t.types {
+					if !GuardedIsAssignable(mt, anyTypeDefault, g) {
+						return false
+					}
+				}
+				return true
 			}
 
 			// the last type of either tuple repeats for the remaining positions
